@@ -10,7 +10,7 @@ add("C01", "model_checking",
     "coverage is the stated families, not all byte strings; non-termination is judged against an explicit horizon; live-heap budget overruns are counted as C15's subject",
     "bounded-exhaustive execution sweep with subprocess fault attribution (stateless exploration of real code)", "DESIGN.md §5 C01", "E-SWEEP")
 add("C02", "model_checking",
-    "Every case of the C01 families (grammar product A, single-byte deviations/truncations/structural deviations B, tiny buffers D) and every chain of <=3 (thorough 4) packets over the 17-packet menu under 4 prior cache states is run under every allowed-version set of the stated menu (all 16 subsets of {5,7,9,10} x extras); the decomposition law is decided from input bytes and returned list alone by a cursor walk using the wire length implied by each packet's own header.",
+    "Every case of the C01 families (grammar product A, single-byte deviations/truncations/structural deviations B, tiny buffers D) and every chain of <=3 (thorough 4) packets over the 17-packet menu under 4 prior cache states is run under every allowed-version set of the stated menu (all 16 subsets of {5,7,9,10} x extras); the decomposition law is decided from input bytes and returned list alone by a cursor walk using the wire length implied by each packet's own header (a V9 element may not hold more flowsets than its header announces).",
     "trusted: c02::decomposition_issues; cases on which the library panics are left to C01",
     "bounded-exhaustive enumeration of (history, buffer, configuration) with a relational oracle", "DESIGN.md §5 C02", "E-ENUM")
 add("C03", "exploration",
@@ -48,7 +48,7 @@ add("C10", "model_checking",
     "trusted: reexport.rs",
     "bounded-exhaustive enumeration of call histories with a round-trip oracle (explicit-state)", "DESIGN.md §5 C10", "E-ENUM")
 add("C11", "model_checking",
-    "Every sequence of 1..=5 (thorough 6) packets over the 17-packet self-delimiting menu (header fields - source id, observation domain, sequence number, clocks - varying with the position) (all four versions, templates defined by early packets and needed by later ones, IPFIX data for an absent id) is delivered under ALL 2^(n-1) partitions into consecutive parse_bytes calls on a fresh parser; concatenated results and final cache snapshot must equal one-packet-per-call delivery. Every sequence of <=4 packets over an 8-packet large-cache menu (1 100 definitions per packet) likewise. Maximal chains up to the datagram limit are compared all-in-one vs one-per-call.",
+    "Every sequence of 1..=5 (thorough 6) packets over the 18-packet menu (17 self-delimiting packets and V9 data for an absent id; a sequence whose only failing packet is its last one is in the domain; header fields - source id, observation domain, sequence number, clocks - varying with the position) (all four versions, templates defined by early packets and needed by later ones, IPFIX data for an absent id) is delivered under ALL 2^(n-1) partitions into consecutive parse_bytes calls on a fresh parser; concatenated results and final cache snapshot must equal one-packet-per-call delivery. Every sequence of <=4 packets over an 8-packet large-cache menu (1 100 definitions per packet) likewise. Maximal chains up to the datagram limit are compared all-in-one vs one-per-call.",
     "sequences whose one-per-call run contains an error element are outside the property's domain (counted, not judged); trusted: c11::judge",
     "bounded-exhaustive enumeration of sequences x all partitions (stateless exploration of real code, differential oracle)", "DESIGN.md §5 C11", "E-ENUM")
 add("C12", "model_checking",
